@@ -1,13 +1,12 @@
 import ZenonVerif.Model.Pow
 import ZenonVerif.Model.Rpc
+import Driver.Core
 /-
 Driver handlers for the pure (stateless) streams: each maps the operation tokens to the model's answer,
 or `none` when the line cannot be parsed (never a default).
 -/
 namespace ZV.Driver
 open ZV
-
-def showBool (b : Bool) : String := if b then "true" else "false"
 
 def purePow : List String → Option String
   | ["pow-target", d] => do
